@@ -637,6 +637,7 @@ func main() {
 		{"filterSrc", []string{"FilterSrc.lean"}, genFilterSrc},
 		{"marshalSrc", []string{"MarshalSrc.lean"}, genMarshalSrc},
 		{"kinesisSrc", []string{"KinesisSrc.lean"}, genKinesisSrc},
+		{"frameSrc", []string{"FrameSrc.lean"}, genFrameSrc},
 	}
 	status := map[string]interface{}{}
 	failed := 0
